@@ -8,6 +8,7 @@ package main
 
 import (
 	"fmt"
+	"strings"
 	"sync"
 	"time"
 
@@ -230,6 +231,34 @@ func legC14Interleave(c *Ctx) {
 			conts++
 			if err != nil {
 				fail("FindNextMatch %d (rune input) after an idle gap of %v reported: %v", k, gap, err)
+			}
+		}
+		c.Add(cs)
+	}
+	// StopTimeoutClock while a timed match is in flight: the clock goroutine exits, `current` goes stale and the
+	// deadline of the running match is never reached until some other timed match restarts the clock
+	// (known finding c14-stop-inflight: StopTimeoutClock is documented for tests only; no small repair)
+	{
+		d := 20 * time.Millisecond
+		re := regexp2.MustCompile(`(a+)+$`)
+		re.MatchTimeout = d
+		in := strings.Repeat("a", 40) + "b"
+		done := make(chan error, 1)
+		t0 := time.Now()
+		go func() { _, err := re.MatchString(in); done <- err }()
+		time.Sleep(5 * time.Millisecond)
+		c14StopWithin(3 * time.Second)
+		cs := &Case{Desc: fmt.Sprintf("StopTimeoutClock 5 ms into a catastrophic match with MatchTimeout=%v", d), Nontrivial: true, Key: "stop-inflight", Class: "stop-inflight", Guard: "c14-stop-inflight"}
+		select {
+		case <-done:
+		case <-time.After(400 * time.Millisecond):
+			cs.Direct = fmt.Sprintf("the match is still running %v after it started (timeout %v): its deadline can no longer be reached because the clock was stopped under it", time.Since(t0).Round(time.Millisecond), d)
+			regexp2.VerifClockMakeDeadline(d) // restart the clock so that the match can time out
+			select {
+			case <-done:
+			case <-time.After(3 * time.Second):
+				cs.Direct += "; and it did not return within 3 s after the clock was restarted"
+				cs.Guard = ""
 			}
 		}
 		c.Add(cs)
